@@ -326,6 +326,8 @@ def verify_unit(unit, digit, mode, canary=False, use_cache=True):
             # find smt record
             rec = None
             short = it.key.split('::')[-1]
+            if it.kind == 'fn' and 'ext_trait' in it.entry.opts and it.header_tokens:
+                short = it.header_tokens[it.header_tokens.index('fn') + 1]   # emitted as inherent `Trait__method`
             for fn, f in byname.items():
                 if fn.endswith('::' + short) and _fn_matches(fn, it, crate):
                     rec = f
@@ -391,6 +393,9 @@ def _fn_matches(fn, it, crate):
     kparts = it.key.replace(' ', '').split('::')
     if it.kind == 'proof':
         return parts[-1] == it.entry.key
+    if it.kind == 'fn' and 'ext_trait' in it.entry.opts:
+        m = re.match(r'impl\((.*)\)$', kparts[-2] if len(kparts) >= 2 else '')
+        return len(parts) >= 2 and m is not None and parts[-2] == re.split(r'[<]', m.group(1).split('for')[-1])[0]
     return parts[-2:] == kparts[-2:] if len(kparts) >= 2 else parts[-1] == kparts[-1]
 
 
